@@ -9,9 +9,11 @@
 //!       Listener::new(address) in this process' environment; report what was adopted/bound
 //!   vhelper pump <address>
 //!       byte pump stdin/stdout <-> socket
-//!   vhelper actclient <specfile> <dumpfile> <outfile>
-//!       close every descriptor from 3 up, then Connection::with_activate (so that the listener of
-//!       varlink_exec IS descriptor 3 in the parent: the clear-close-on-exec branch), one GetInfo call
+//!   vhelper actclient <specfile> <dumpfile> <outfile> [<fd,fd,…>]
+//!       close every descriptor from 3 up and the listed ones of 0,1,2, then Connection::with_activate
+//!       (so that the listener of varlink_exec lands on the lowest free descriptor: 3 = the
+//!       clear-close-on-exec branch, 0/1/2 = the dup2 branch from below), one GetInfo call; everything
+//!       is reported through <outfile>
 #![allow(dead_code, unused_imports)]
 
 #[path = "../rng.rs"]
@@ -112,23 +114,35 @@ fn main() {
             let spec = args[2].clone();
             let dump = args[3].clone();
             let out = args[4].clone();
+            let exe = std::env::current_exe().unwrap().to_string_lossy().to_string();
+            let low: Vec<i32> = args.get(5).map(|l| l.split(',').filter_map(|x| x.parse().ok()).collect()).unwrap_or_default();
             for fd in 3..256 {
                 unsafe {
                     libc::close(fd);
                 }
             }
-            let exe = std::env::current_exe().unwrap().to_string_lossy().to_string();
+            for fd in low {
+                if (0..3).contains(&fd) {
+                    unsafe {
+                        libc::close(fd);
+                    }
+                }
+            }
             let cmd = format!("{} serve {} $VARLINK_ADDRESS --idle 2 --dump {}", exe, spec, dump);
             let line = match varlink::Connection::with_activate(&cmd) {
                 Err(e) => format!("(fail x{})", sx::hex(format!("{:?}", e.kind()).as_bytes())),
                 Ok(conn) => {
                     let child = conn.write().unwrap().child.take();
                     let address = conn.read().unwrap().address();
-                    let r = {
+                    // the call under a watchdog: a service that never got its socket never answers
+                    let (tx, rx) = std::sync::mpsc::channel();
+                    let conn2 = conn.clone();
+                    std::thread::spawn(move || {
                         use varlink::OrgVarlinkServiceInterface;
-                        let mut c = varlink::OrgVarlinkServiceClient::new(conn.clone());
-                        c.get_info().map(|i| i.vendor.to_string())
-                    };
+                        let mut c = varlink::OrgVarlinkServiceClient::new(conn2);
+                        let _ = tx.send(c.get_info().map(|i| i.vendor.to_string()).map_err(|e| format!("{:?}", e.kind())));
+                    });
+                    let r = rx.recv_timeout(std::time::Duration::from_millis(2500)).unwrap_or_else(|_| Err("timeout".to_string()));
                     let pid = child.as_ref().map(|c| c.id()).unwrap_or(0);
                     if let Some(mut c) = child {
                         // leave the service a moment to write its dump, then stop it
@@ -141,7 +155,7 @@ fn main() {
                     }
                     match r {
                         Ok(v) => format!("(ok x{} {} x{})", sx::hex(v.as_bytes()), pid, sx::hex(address.as_bytes())),
-                        Err(e) => format!("(callfail x{})", sx::hex(format!("{:?}", e.kind()).as_bytes())),
+                        Err(e) => format!("(callfail x{} {} x{})", sx::hex(e.as_bytes()), pid, sx::hex(address.as_bytes())),
                     }
                 }
             };
